@@ -6,6 +6,7 @@
 -/
 import Sbepp.Lemmas.Decode
 import Sbepp.Lemmas.ResolveWF
+import Sbepp.Lemmas.RoundTripObs
 
 namespace Sbepp.Properties.C02
 open Sbepp Sbepp.Schema Sbepp.Observe
@@ -48,6 +49,43 @@ theorem decode_image_accepted (s : SchemaDef) (md : MessageDef) (m : NMessage)
         = (hdr ++ flattenL s.byteOrder m.level.erase root).length :=
   decode_image s.byteOrder m hdr root post blOff blSize (resolve_wf s md m hr).1 hh hb hc
 
+/-- **encode_then_decode** (C01 ∘ C02, the message-level round trip): encode any
+    encodable value tree `v` (any nesting, entry counts, data lengths) over
+    arbitrary previous contents `mid` inside `pre ++ mid ++ post`; then the
+    decoder model, run on the *encoder's output buffer* and consulting only that
+    buffer, observes exactly the fields, group sizes, entry sizes and payloads of
+    `v`, and the size it computes is the encoder's end position.  What was in
+    the buffer before (`mid`, e.g. an older message) is not observable.
+    Hypotheses: leaves inside their blocks and sorted (`resolve_wf`: every
+    accepted layout), the tree is encodable (`EncL`), header members of every
+    dimension composite do not overlap and block length / entry count fit them
+    (`FitL`). -/
+theorem encode_then_decode (bo : ByteOrder) (pfx : String) (l : NLevel) (v : LVal) (pre mid post : List Nat)
+    (hw : WFL l) (hs : SortedL l) (he : Spec.EncL bo l.erase v) (hf : Spec.FitL l.erase v)
+    (hlen : mid.length = (flattenL bo l.erase v).length) :
+    let out := Spec.encL bo l.erase v (pre ++ mid ++ post) pre.length
+    modelL bo out.1 pfx l pre.length l.erase.blockLen = specL bo pfx l v
+    ∧ endL bo out.1 l.erase pre.length l.erase.blockLen = out.2 := by
+  intro out
+  obtain ⟨h1, h2⟩ := Spec.encL_spec bo l.erase v pre mid post he hlen
+  have hc := Spec.confL_fill bo l.erase v mid he hf hlen
+  have ho : out = (pre ++ flattenL bo l.erase (Spec.fillL bo l.erase v mid) ++ post, pre.length + mid.length) := h1
+  rw [ho]
+  refine ⟨?_, ?_⟩
+  · rw [decL bo pfx l _ _ _ pre post hw hc rfl]
+    exact Spec.specL_fill bo pfx l v mid he hs hlen
+  · rw [endL_spec bo l.erase _ _ _ pre post hc rfl, h2]
+
+/-- the same for every message of every schema the validator model accepts -/
+theorem encode_then_decode_accepted (s : SchemaDef) (md : MessageDef) (m : NMessage)
+    (hr : resolveMessage s md = .ok m) (v : LVal) (pre mid post : List Nat)
+    (he : Spec.EncL s.byteOrder m.level.erase v) (hf : Spec.FitL m.level.erase v)
+    (hlen : mid.length = (flattenL s.byteOrder m.level.erase v).length) :
+    let out := Spec.encL s.byteOrder m.level.erase v (pre ++ mid ++ post) pre.length
+    modelL s.byteOrder out.1 "" m.level pre.length m.level.erase.blockLen = specL s.byteOrder "" m.level v
+    ∧ endL s.byteOrder out.1 m.level.erase pre.length m.level.erase.blockLen = out.2 :=
+  encode_then_decode s.byteOrder "" m.level v pre mid post (resolve_wf s md m hr).1 (resolve_wf s md m hr).2 he hf hlen
+
 /-- a scalar written in the schema's byte order reads back bit-exactly (this is
     what `set_primitive`/`get_primitive` do: native copy or byte reversal);
     floats are their IEEE bit patterns, so NaN payloads are covered -/
@@ -86,5 +124,23 @@ example : ConfL .little exLevel.erase exVal 6 := by
 example : specL .little "" exLevel exVal =
     ["a=201", "b=3", "g:n=2,sz=10", "g[0]:sz=4", "g[0].x=5", "g[0].d=<61>,sz=2", "g[1]:sz=3", "g[1].x=6", "g[1].d=<>,sz=1",
      "e=<6263>,sz=4"] := by decide
+
+/-! non-vacuity of the round trip: the same layout, blocks at their compiled
+    lengths, encoded over 0xee bytes -/
+def exVal2 : LVal :=
+  .mk [1, 2, 9, 3] [.mk [0, 0, 0] [.mk [5] [] [[0x61]], .mk [6] [] [[]]]] [[0x62, 0x63]]
+
+example : Spec.EncL .little exLevel.erase exVal2 := by
+  simp [exLevel, exVal2, NLevel.erase, eraseGs, NGroup.erase, Spec.EncL, Spec.EncGs, Spec.EncG, Spec.EncEs, ConfDs,
+    ConfD, IsBytes, NLeaf.leaf]
+example : Spec.FitL exLevel.erase exVal2 := by
+  simp [exLevel, exVal2, NLevel.erase, eraseGs, NGroup.erase, Spec.FitL, Spec.FitGs, Spec.FitG, Spec.FitEs,
+    Gen.groupHeaderFields, Gen.PairwiseDisj, Gen.Disj, Level.blockLen]
+example : SortedL exLevel := by
+  simp [exLevel, SortedL, SortedGs, SortedG, SortedN, Spec.Sorted, NLeaf.leaf]
+example :
+    modelL .little (Spec.encL .little exLevel.erase exVal2 (List.replicate 19 0xee) 1).1 "" exLevel 1 4
+      = ["a=201", "b=3", "g:n=2,sz=8", "g[0]:sz=3", "g[0].x=5", "g[0].d=<61>,sz=2", "g[1]:sz=2", "g[1].x=6",
+         "g[1].d=<>,sz=1", "e=<6263>,sz=4"] := by decide
 
 end Sbepp.Properties.C02
